@@ -2,6 +2,7 @@ package core
 
 import (
 	"fmt"
+	"reflect"
 	"time"
 
 	"github.com/junioryono/godi/v4"
@@ -141,6 +142,127 @@ func RunInitializerCycles(c *eng.Ctx, next func() (int, bool)) {
 				c.R.Count("initializer_cycle_cases", 1)
 				c.R.End(idx, eng.Hash("c05-init-cycle", feat, order), true)
 			}
+		}
+	}
+}
+
+// ---- a live provider, a failed Build, and an edit that closes a cycle ---------------------
+
+type lcRepo struct{ svc *lcSvc }
+type lcSvc struct{ repo *lcRepo }
+type lcFlaky struct{}
+
+// RunLiveProviderVsCyclicEdit: "every resolution on a successfully built provider terminates".
+// Provider p1 is built from an acyclic collection and stays alive. A later Build of the same
+// collection fails AFTER validation (a singleton constructor returns an error / panics), or is
+// refused; then the collection is edited so that it contains a cycle among scoped / transient
+// services (Build of the edited collection is refused, as it must be). p1 was validated acyclic
+// and is unaffected by all of this: resolving the services in a fresh scope of p1 returns.
+func RunLiveProviderVsCyclicEdit(c *eng.Ctx, next func() (int, bool)) {
+	for _, between := range []string{"nothing", "build-fails-in-a-singleton-constructor", "build-panics-in-a-singleton-constructor", "build-refused-for-a-missing-dependency"} {
+		for _, life := range []godi.Lifetime{godi.Scoped, godi.Transient} {
+			idx, mine := next()
+			if !mine {
+				continue
+			}
+			c.R.Begin(idx)
+			feat := between + ":" + lifeName(life)
+			viol := func(clause, detail string) {
+				c.R.Violation(eng.Violation{Prop: "C05", Clause: clause, Sig: "C05/" + clause + ":live-provider-after-cyclic-edit:" + feat, Case: idx, CaseID: "live-provider-vs-cyclic-edit-" + feat,
+					Detail: feat + ": " + detail, Replay: map[string]any{"fixture": "live-provider-vs-cyclic-edit", "between": between, "lifetime": lifeName(life)}})
+			}
+			flaky := ""
+			coll := godi.NewCollection()
+			errs := []error{
+				eqAdd(coll, life, func() *lcRepo { return &lcRepo{} }),
+				eqAdd(coll, life, func(r *lcRepo) *lcSvc { return &lcSvc{r} }),
+				coll.AddSingleton(func() (*lcFlaky, error) {
+					switch flaky {
+					case "error":
+						return nil, fmt.Errorf("live-provider fixture: this singleton fails to start")
+					case "panic":
+						panic("live-provider fixture: this singleton panics")
+					}
+					return &lcFlaky{}, nil
+				}),
+			}
+			bad := false
+			for _, e := range errs {
+				bad = bad || e != nil
+			}
+			p1, err := coll.Build()
+			if bad || err != nil {
+				c.R.Inconclusive(idx, "fixture does not build")
+				continue
+			}
+			switch between {
+			case "build-fails-in-a-singleton-constructor":
+				flaky = "error"
+			case "build-panics-in-a-singleton-constructor":
+				flaky = "panic"
+			case "build-refused-for-a-missing-dependency":
+				_ = eqAdd(coll, life, func(*icSvc) *orC { return &orC{} })
+			}
+			if between != "nothing" {
+				func() {
+					defer func() { _ = recover() }()
+					if p, err := coll.Build(); err == nil {
+						_ = p.Close()
+						viol("fixture", "the Build that must fail succeeded")
+					}
+				}()
+				flaky = ""
+				if between == "build-refused-for-a-missing-dependency" {
+					coll.Remove(reflect.TypeOf((*orC)(nil)))
+				}
+			}
+			// the edit: Repo now needs Svc
+			coll.Remove(reflect.TypeOf((*lcRepo)(nil)))
+			if err := eqAdd(coll, life, func(s *lcSvc) *lcRepo { return &lcRepo{s} }); err != nil {
+				c.R.Inconclusive(idx, "fixture edit refused: "+err.Error())
+				_ = p1.Close()
+				continue
+			}
+			if p, err := coll.Build(); err == nil {
+				_ = p.Close()
+				viol("cycle-accepted", "Build succeeded on the edited collection although Svc -> Repo -> Svc")
+			} else if Classify(err) != "circular" {
+				viol("cycle-wrong-error", fmt.Sprintf("Build of the edited collection failed, but not with a circular-dependency error: %v", trimErr(err)))
+			}
+			done := make(chan struct{})
+			var rerr error
+			var svc *lcSvc
+			go func() {
+				defer close(done)
+				defer func() {
+					if p := recover(); p != nil {
+						rerr = fmt.Errorf("panic: %v", p)
+					}
+				}()
+				sc, err := p1.CreateScope(nil)
+				if err != nil {
+					rerr = err
+					return
+				}
+				svc, rerr = godi.Resolve[*lcSvc](sc)
+				_, _ = godi.Resolve[*lcRepo](sc)
+				_ = sc.Close()
+			}()
+			if v := eng.AwaitOrDiagnose(done, 15*time.Second); !v.Done {
+				if v.Deadlock {
+					viol("resolution-hangs", "a resolution on the provider built BEFORE the edit never returned; goroutines stuck inside godi:\n"+v.Dump)
+				} else {
+					c.R.Inconclusive(idx, "resolution on the live provider did not return within the watchdog")
+				}
+				c.R.Abandon(idx)
+				continue
+			}
+			if rerr != nil || svc == nil || svc.repo == nil || svc.repo.svc != nil {
+				viol("earlier-provider-changed", fmt.Sprintf("the provider built before the edit no longer resolves its acyclic services as registered then: %v", rerr))
+			}
+			_ = p1.Close()
+			c.R.Count("live_provider_vs_cyclic_edit_cases", 1)
+			c.R.End(idx, eng.Hash("c05-live-provider", feat), true)
 		}
 	}
 }
